@@ -35,8 +35,8 @@ Section Spec.
   (* the outpoint of input i *)
   Definition outpoint_of (v : vver) (p : vpacket) (i : nat) (inp : vinput) : option (bytes * N) :=
     match v with
-    | VsV2 => Some (vi_prev_txid inp, vi_prev_index inp)
-    | VsV0 => match nth_error (t_ins (vp_tx p)) i with
+    | VsV2 => Some (svi_prev_txid inp, svi_prev_index inp)
+    | VsV0 => match nth_error (t_ins (svp_tx p)) i with
               | Some ti => Some (in_hash ti, in_index ti)
               | None => None
               end
@@ -45,13 +45,13 @@ Section Spec.
   (* the output the input actually spends: the outpoint's output of the supplied previous
      transaction, else the witness-utxo record *)
   Definition spent_output (v : vver) (p : vpacket) (i : nat) (inp : vinput) : option txout :=
-    match vi_nonwit inp with
+    match svi_nonwit inp with
     | Some prev =>
         match outpoint_of v p i inp with
         | Some (_, idx) => if idx <? lenL (t_outs prev) then nth_error (t_outs prev) (N.to_nat idx) else None
         | None => None
         end
-    | None => vi_wit inp
+    | None => svi_wit inp
     end.
 
   (* strict script forms *)
@@ -82,7 +82,7 @@ Section Spec.
     | None =>
         match p2wsh_prog script with
         | Some prog =>
-            match vi_witscript inp with
+            match svi_witscript inp with
             | Some w => if bytes_eqb (sha256 w) prog then Some (Some (VSegwitV0, w, amount, w)) else Some None
             | None => Some None
             end
@@ -97,7 +97,7 @@ Section Spec.
     | None =>
         match p2sh_prog spk with
         | Some prog =>
-            match vi_redeem inp with
+            match svi_redeem inp with
             | Some r =>
                 if bytes_eqb (hash160 r) prog then
                   match witness_sel inp (o_value o) r with
@@ -116,7 +116,7 @@ Section Spec.
     match spent_output v p i inp with
     | Some o =>
         match spec_select inp o with
-        | Some (a, code, am, sat) => Some (digest a (vp_tx p) i code am ht, sat)
+        | Some (a, code, am, sat) => Some (digest a (svp_tx p) i code am ht, sat)
         | None => None
         end
     | None => None
@@ -132,21 +132,21 @@ Section Spec.
 
   (* a supplied previous transaction hashes to the outpoint txid *)
   Definition prev_tx_matches (v : vver) (p : vpacket) (i : nat) (inp : vinput) : Prop :=
-    forall prev, vi_nonwit inp = Some prev ->
+    forall prev, svi_nonwit inp = Some prev ->
       exists h idx, outpoint_of v p i inp = Some (h, idx) /\ txid prev = h.
 
   (* FULL STATEMENT (valid_only_if).  Refuted for the code as written (see the _refuted
      theorems at the end of this file); proved under `consistent` below. *)
   Definition valid_only_if_statement : Prop :=
     forall v p i, VI v p i = VOk true ->
-      exists inp, nth_error (vp_ins p) i = Some inp /\ vi_sigs inp <> [] /\
-        (forall s, In s (vi_sigs inp) -> sig_genuine v p i inp s) /\
+      exists inp, nth_error (svp_ins p) i = Some inp /\ svi_sigs inp <> [] /\
+        (forall s, In s (svi_sigs inp) -> sig_genuine v p i inp s) /\
         prev_tx_matches v p i inp.
 
   (* ---------- what the code does check ---------- *)
   (* the previous-transaction test as coded *)
   Definition prev_tx_checked (v : vver) (p : vpacket) (i : nat) (inp : vinput) : Prop :=
-    forall prev, vi_nonwit inp = Some prev ->
+    forall prev, svi_nonwit inp = Some prev ->
       exists h idx, outpoint_of v p i inp = Some (h, idx) /\
         match v with
         | VsV2 => txid prev = h
@@ -165,7 +165,7 @@ Section Spec.
   Proof.
     unfold vs_validate_sig, sig_checked. destruct s as [s|]; [|discriminate].
     destruct (vs_pub_missing v s) eqn:Em; [discriminate|].
-    destruct s as [opub sg]. cbn [vg_pub vg_sig] in *.
+    destruct s as [opub sg]. cbn [svg_pub svg_sig] in *.
     destruct opub as [pub|]; [|cbn in Em; discriminate]. cbn [vs_opt].
     destruct (rev sg) as [|last rder] eqn:Er; [discriminate|].
     intro H. apply vbind_ok in H as [[d scr] [Hhs H]]. cbn [fst snd] in H.
@@ -190,11 +190,11 @@ Section Spec.
 
   Lemma validate_input_true v p i :
     VI v p i = VOk true ->
-    exists inp, nth_error (vp_ins p) i = Some inp /\ vi_sigs inp <> [] /\
-                VSigs v p i inp (vi_sigs inp) = VOk true.
+    exists inp, nth_error (svp_ins p) i = Some inp /\ svi_sigs inp <> [] /\
+                VSigs v p i inp (svi_sigs inp) = VOk true.
   Proof.
-    unfold vs_validate_input. destruct (nth_error (vp_ins p) i) as [inp|]; [|discriminate].
-    destruct (vi_sigs inp) as [|s0 r] eqn:Es; [discriminate|].
+    unfold vs_validate_input. destruct (nth_error (svp_ins p) i) as [inp|]; [|discriminate].
+    destruct (svi_sigs inp) as [|s0 r] eqn:Es; [discriminate|].
     intro H. exists inp. rewrite Es. repeat split; [discriminate | exact H].
   Qed.
 
@@ -202,7 +202,7 @@ Section Spec.
     vs_outpoint v p i inp = VOk op -> outpoint_of v p i inp = Some op.
   Proof.
     unfold vs_outpoint, outpoint_of. destruct v.
-    - destruct (nth_error (t_ins (vp_tx p)) i); [|discriminate]. intro H; injection H as <-. reflexivity.
+    - destruct (nth_error (t_ins (svp_tx p)) i); [|discriminate]. intro H; injection H as <-. reflexivity.
     - intro H; injection H as <-. reflexivity.
   Qed.
 
@@ -226,14 +226,14 @@ Section Spec.
      transaction passed the coded id test (equality in v2, "outpoint not greater" in v0). *)
   Theorem valid_only_if_partial v p i :
     VI v p i = VOk true ->
-    exists inp, nth_error (vp_ins p) i = Some inp /\ vi_sigs inp <> [] /\
-      (forall s, In s (vi_sigs inp) -> sig_checked v p i inp s) /\
+    exists inp, nth_error (svp_ins p) i = Some inp /\ svi_sigs inp <> [] /\
+      (forall s, In s (svi_sigs inp) -> sig_checked v p i inp s) /\
       prev_tx_checked v p i inp.
   Proof.
     intro H. apply validate_input_true in H as [inp [Hn [Hne Hs]]].
     exists inp. split; [exact Hn|]. split; [exact Hne|]. split.
     - intros s Hin. apply validate_sig_true. eapply validate_sigs_true; eassumption.
-    - destruct (vi_sigs inp) as [|s0 r] eqn:Es; [congruence|].
+    - destruct (svi_sigs inp) as [|s0 r] eqn:Es; [congruence|].
       assert (Hc : sig_checked v p i inp s0).
       { apply validate_sig_true. eapply validate_sigs_true; [exact Hs | left; reflexivity]. }
       destruct Hc as (pub & sg & ck & last & rder & d & scr & asm & _ & _ & _ & Hhs & _).
@@ -243,7 +243,7 @@ Section Spec.
   (* v2: the previous-transaction conjunct of the full statement holds *)
   Theorem v2_prev_tx_matches p i :
     VI VsV2 p i = VOk true ->
-    exists inp, nth_error (vp_ins p) i = Some inp /\ prev_tx_matches VsV2 p i inp.
+    exists inp, nth_error (svp_ins p) i = Some inp /\ prev_tx_matches VsV2 p i inp.
   Proof.
     intro H. apply valid_only_if_partial in H as [inp [Hn [_ [_ Hp]]]].
     exists inp. split; [exact Hn|]. intros prev Hprev. destruct (Hp prev Hprev) as (h & idx & Ho & Ht).
@@ -252,7 +252,7 @@ Section Spec.
   (* ---------- consistent packets: the full statement holds ---------- *)
   (* the script the validator classifies *)
   Definition used_script (inp : vinput) (o : txout) : bytes :=
-    match vi_redeem inp with Some r => r | None => o_script o end.
+    match svi_redeem inp with Some r => r | None => o_script o end.
 
   (* a script starting with OP_0 is a well-formed v0 witness program *)
   Definition wf_program (s : bytes) : Prop :=
@@ -269,14 +269,14 @@ Section Spec.
   Definition consistent (v : vver) (p : vpacket) (i : nat) (inp : vinput) : Prop :=
     prev_tx_matches v p i inp /\
     exists o, spent_output v p i inp = Some o /\
-      (forall w, vi_nonwit inp <> None -> vi_wit inp = Some w -> o_value w = o_value o) /\
-      match vi_redeem inp with
+      (forall w, svi_nonwit inp <> None -> svi_wit inp = Some w -> o_value w = o_value o) /\
+      match svi_redeem inp with
       | Some r => exists prog, p2sh_prog (o_script o) = Some prog /\ hash160 r = prog
       | None => p2sh_prog (o_script o) = None
       end /\
       wf_program (used_script inp o) /\
       (forall prog, p2wsh_prog (used_script inp o) = Some prog ->
-                    exists w, vi_witscript inp = Some w /\ sha256 w = prog).
+                    exists w, svi_witscript inp = Some w /\ sha256 w = prog).
 
   Lemma bytes_eqb_refl a : bytes_eqb a a = true.
   Proof. apply bytes_eqb_eq. reflexivity. Qed.
@@ -290,7 +290,7 @@ Section Spec.
   Qed.
 
   Lemma spec_select_used inp o :
-    match vi_redeem inp with
+    match svi_redeem inp with
     | Some r => exists prog, p2sh_prog (o_script o) = Some prog /\ hash160 r = prog
     | None => p2sh_prog (o_script o) = None
     end ->
@@ -300,7 +300,7 @@ Section Spec.
     | None => Some (VLegacy, used_script inp o, [], used_script inp o)
     end.
   Proof.
-    unfold spec_select, used_script. destruct (vi_redeem inp) as [r|].
+    unfold spec_select, used_script. destruct (svi_redeem inp) as [r|].
     - intros (prog & Hp & Hh). rewrite (p2sh_not_witness inp (o_value o) _ _ Hp), Hp, Hh, bytes_eqb_refl.
       reflexivity.
     - intro Hp. rewrite Hp. destruct (witness_sel inp (o_value o) (o_script o)); reflexivity.
@@ -336,9 +336,9 @@ Section Spec.
   Qed.
 
   Lemma digest_v0_ok p i script amount ht d :
-    vs_digest_v0 digest p i script amount ht = VOk d -> d = digest VSegwitV0 (vp_tx p) i script amount ht.
+    vs_digest_v0 digest p i script amount ht = VOk d -> d = digest VSegwitV0 (svp_tx p) i script amount ht.
   Proof.
-    unfold vs_digest_v0. destruct (i <? length (t_ins (vp_tx p)))%nat; [|discriminate].
+    unfold vs_digest_v0. destruct (i <? length (t_ins (svp_tx p)))%nat; [|discriminate].
     intro H; injection H as <-. reflexivity.
   Qed.
 
@@ -350,7 +350,7 @@ Section Spec.
     intros (Hprev & o & Hspent & Ham & Hred & Hwf & Htie) H.
     unfold digest_of_spent. rewrite Hspent. rewrite (spec_select_used inp o Hred).
     unfold vs_hash_and_script in H. unfold spent_output in Hspent.
-    destruct (vi_nonwit inp) as [prev|] eqn:Enw.
+    destruct (svi_nonwit inp) as [prev|] eqn:Enw.
     - apply vbind_ok in H as [[h idx] [Ho H]]. cbn [fst snd] in H.
       apply outpoint_spec in Ho. rewrite Ho in Hspent.
       destruct (negb (vs_prev_id_ok v h (txid prev))); [discriminate|].
@@ -360,7 +360,7 @@ Section Spec.
       fold (used_script inp o) in H.
       apply vbind_ok in H as [ty [Hty H]].
       destruct (type_cases _ _ Hty Hwf) as [[-> Hp]|[[-> [Hp1 [prog Hp2]]]|[Hn1 [Hn2 [Hp1 Hp2]]]]].
-      + destruct (vi_wit inp) as [w|] eqn:Ew; [|discriminate].
+      + destruct (svi_wit inp) as [w|] eqn:Ew; [|discriminate].
         apply vbind_ok in H as [d0 [Hd H]]. injection H as <- <-.
         apply digest_v0_ok in Hd. subst d0.
         unfold witness_sel. rewrite Hp.
@@ -388,9 +388,9 @@ Section Spec.
   (* valid_only_if, for every packet consistent at input i *)
   Theorem valid_only_if_consistent v p i :
     VI v p i = VOk true ->
-    forall inp, nth_error (vp_ins p) i = Some inp -> consistent v p i inp ->
-      vi_sigs inp <> [] /\
-      (forall s, In s (vi_sigs inp) -> sig_genuine v p i inp s) /\
+    forall inp, nth_error (svp_ins p) i = Some inp -> consistent v p i inp ->
+      svi_sigs inp <> [] /\
+      (forall s, In s (svi_sigs inp) -> sig_genuine v p i inp s) /\
       prev_tx_matches v p i inp.
   Proof.
     intros H inp Hn Hc. apply valid_only_if_partial in H as [inp' [Hn' [Hne [Hs _]]]].
@@ -408,8 +408,8 @@ Section Spec.
 
     Theorem valid_implies_signed v p i :
       VI v p i = VOk true ->
-      exists inp, nth_error (vp_ins p) i = Some inp /\
-        forall s, In s (vi_sigs inp) ->
+      exists inp, nth_error (svp_ins p) i = Some inp /\
+        forall s, In s (svi_sigs inp) ->
           exists pub sg ck last rder d scr,
             s = Some (mk_vsig (Some pub) sg) /\ parse_pk pub = Some ck /\ rev sg = last :: rder /\
             HS v p i inp (n8 last) = VOk (d, scr) /\ signed ck d (rev rder).
@@ -425,8 +425,8 @@ Section Spec.
        validator selects any other digest for it - whatever was changed: a covered
        transaction field, the script, the amount, the hash-type byte. *)
     Theorem corruption_rejected v p i inp pub sg ck last rder d0 :
-      nth_error (vp_ins p) i = Some inp ->
-      In (Some (mk_vsig (Some pub) sg)) (vi_sigs inp) ->
+      nth_error (svp_ins p) i = Some inp ->
+      In (Some (mk_vsig (Some pub) sg)) (svi_sigs inp) ->
       parse_pk pub = Some ck -> rev sg = last :: rder ->
       (forall m, signed ck m (rev rder) -> m = d0) ->
       (forall d scr, HS v p i inp (n8 last) = VOk (d, scr) -> d <> d0) ->
@@ -444,8 +444,8 @@ Section Spec.
 
   (* substituted previous transaction, v2: any other id is rejected *)
   Theorem v2_substituted_prev_rejected p i inp prev :
-    nth_error (vp_ins p) i = Some inp -> vi_nonwit inp = Some prev ->
-    txid prev <> vi_prev_txid inp -> VI VsV2 p i <> VOk true.
+    nth_error (svp_ins p) i = Some inp -> svi_nonwit inp = Some prev ->
+    txid prev <> svi_prev_txid inp -> VI VsV2 p i <> VOk true.
   Proof.
     intros Hn Hp Hne H. apply valid_only_if_partial in H as [inp' [Hn' [_ [_ Hc]]]].
     rewrite Hn in Hn'. injection Hn' as <-.
@@ -455,8 +455,8 @@ Section Spec.
   (* substituted previous transaction, v0: rejected when the outpoint txid compares above its id
      (the other direction is valid_only_if_refuted_prev_tx_v0) *)
   Theorem v0_prev_below_outpoint_rejected p i inp prev ti :
-    nth_error (vp_ins p) i = Some inp -> vi_nonwit inp = Some prev ->
-    nth_error (t_ins (vp_tx p)) i = Some ti -> vs_compare (in_hash ti) (txid prev) = Gt ->
+    nth_error (svp_ins p) i = Some inp -> svi_nonwit inp = Some prev ->
+    nth_error (t_ins (svp_tx p)) i = Some ti -> vs_compare (in_hash ti) (txid prev) = Gt ->
     VI VsV0 p i <> VOk true.
   Proof.
     intros Hn Hp Hti Hgt H. apply valid_only_if_partial in H as [inp' [Hn' [_ [_ Hc]]]].
@@ -469,13 +469,13 @@ Section Spec.
   (* what the PSET parsers guarantee about the fields read here: one packet input per
      transaction input, partial signatures with a parsable key and a non-empty signature *)
   Definition accepted (p : vpacket) : Prop :=
-    length (t_ins (vp_tx p)) = length (vp_ins p) /\
-    forall inp, In inp (vp_ins p) -> forall s, In s (vi_sigs inp) ->
+    length (t_ins (svp_tx p)) = length (svp_ins p) /\
+    forall inp, In inp (svp_ins p) -> forall s, In s (svi_sigs inp) ->
       exists pub sg, s = Some (mk_vsig (Some pub) sg) /\ parse_pk pub <> None /\ sg <> [].
 
   (* FULL STATEMENT (no_panic_on_accepted_packets); refuted below *)
   Definition no_panic_statement : Prop :=
-    forall v p i, accepted p -> (i < length (vp_ins p))%nat -> forall site, VI v p i <> VPanic site.
+    forall v p i, accepted p -> (i < length (svp_ins p))%nat -> forall site, VI v p i <> VPanic site.
 
   Definition script_ok (s : bytes) : Prop := s <> [] /\ (forall a, s = [a] -> n8 a <> 0).
 
@@ -483,13 +483,13 @@ Section Spec.
      classified script is non-empty and not the single byte OP_0, a P2WPKH script next to a
      previous transaction comes with a witness-utxo record *)
   Definition panic_guards (v : vver) (p : vpacket) (i : nat) (inp : vinput) : Prop :=
-    match vi_nonwit inp with
+    match svi_nonwit inp with
     | Some prev =>
         forall h idx, outpoint_of v p i inp = Some (h, idx) ->
           exists o, idx < lenL (t_outs prev) /\ nth_error (t_outs prev) (N.to_nat idx) = Some o /\
                     script_ok (used_script inp o) /\
-                    (vs_script_type (used_script inp o) = VOk StP2WPKH -> vi_wit inp <> None)
-    | None => forall w, vi_wit inp = Some w -> script_ok (used_script inp w)
+                    (vs_script_type (used_script inp o) = VOk StP2WPKH -> svi_wit inp <> None)
+    | None => forall w, svi_wit inp = Some w -> script_ok (used_script inp w)
     end.
 
   Lemma script_type_total s : script_ok s -> exists ty, vs_script_type s = VOk ty.
@@ -505,20 +505,20 @@ Section Spec.
   Qed.
 
   Lemma digest_v0_total p i script amount ht :
-    (i < length (t_ins (vp_tx p)))%nat -> exists d, vs_digest_v0 digest p i script amount ht = VOk d.
+    (i < length (t_ins (svp_tx p)))%nat -> exists d, vs_digest_v0 digest p i script amount ht = VOk d.
   Proof.
-    intro H. unfold vs_digest_v0. destruct (Nat.ltb_spec i (length (t_ins (vp_tx p)))); [eexists; reflexivity|lia].
+    intro H. unfold vs_digest_v0. destruct (Nat.ltb_spec i (length (t_ins (svp_tx p)))); [eexists; reflexivity|lia].
   Qed.
 
   Lemma hash_and_script_no_panic v p i inp ht :
-    (i < length (t_ins (vp_tx p)))%nat -> panic_guards v p i inp ->
+    (i < length (t_ins (svp_tx p)))%nat -> panic_guards v p i inp ->
     forall site, HS v p i inp ht <> VPanic site.
   Proof.
     intros Hi Hg site. unfold vs_hash_and_script, panic_guards in *.
-    destruct (vi_nonwit inp) as [prev|].
+    destruct (svi_nonwit inp) as [prev|].
     - assert (Ho : exists h idx, vs_outpoint v p i inp = VOk (h, idx) /\ outpoint_of v p i inp = Some (h, idx)).
       { unfold vs_outpoint, outpoint_of. destruct v.
-        - destruct (nth_error (t_ins (vp_tx p)) i) as [ti|] eqn:E.
+        - destruct (nth_error (t_ins (svp_tx p)) i) as [ti|] eqn:E.
           + exists (in_hash ti), (in_index ti). split; reflexivity.
           + apply nth_error_None in E. lia.
         - eexists; eexists; split; reflexivity. }
@@ -529,27 +529,27 @@ Section Spec.
       rewrite Hnth. fold (used_script inp o).
       destruct (script_type_total _ Hsok) as [ty Hty]. rewrite Hty in *. cbn [vbind].
       destruct ty; try discriminate.
-      + destruct (vi_wit inp) as [w|]; [|exfalso; apply Hw; reflexivity].
+      + destruct (svi_wit inp) as [w|]; [|exfalso; apply Hw; reflexivity].
         destruct (digest_v0_total p i (vs_p2pkh_code (skipn 2 (used_script inp o))) (o_value w) ht Hi) as [d Hd].
         rewrite Hd. discriminate.
-      + destruct (vi_witscript inp) as [ws|]; [|discriminate].
+      + destruct (svi_witscript inp) as [ws|]; [|discriminate].
         destruct (digest_v0_total p i ws (o_value o) ht Hi) as [d Hd]. rewrite Hd. discriminate.
-    - destruct (vi_wit inp) as [w|]; [|discriminate].
+    - destruct (svi_wit inp) as [w|]; [|discriminate].
       fold (used_script inp w).
       destruct (script_type_total _ (Hg w eq_refl)) as [ty Hty]. rewrite Hty. cbn [vbind].
       destruct ty; try discriminate.
       + destruct (digest_v0_total p i (vs_p2pkh_code (skipn 2 (used_script inp w))) (o_value w) ht Hi) as [d Hd].
         rewrite Hd. discriminate.
-      + destruct (digest_v0_total p i (vs_opt (vi_witscript inp)) (o_value w) ht Hi) as [d Hd].
+      + destruct (digest_v0_total p i (vs_opt (svi_witscript inp)) (o_value w) ht Hi) as [d Hd].
         rewrite Hd. discriminate.
   Qed.
 
   Lemma validate_sig_no_panic v p i inp s :
-    (i < length (t_ins (vp_tx p)))%nat -> panic_guards v p i inp ->
+    (i < length (t_ins (svp_tx p)))%nat -> panic_guards v p i inp ->
     (exists pub sg, s = Some (mk_vsig (Some pub) sg) /\ parse_pk pub <> None /\ sg <> []) ->
     forall site, VSig v p i inp s <> VPanic site.
   Proof.
-    intros Hi Hg (pub & sg & -> & Hpk & Hsg) site. unfold vs_validate_sig. cbn [vg_pub vg_sig vs_opt].
+    intros Hi Hg (pub & sg & -> & Hpk & Hsg) site. unfold vs_validate_sig. cbn [svg_pub svg_sig vs_opt].
     destruct (vs_pub_missing v _); [discriminate|].
     destruct (rev sg) as [|last rder] eqn:Er.
     { exfalso. apply Hsg. rewrite <- (rev_involutive sg), Er. reflexivity. }
@@ -572,13 +572,13 @@ Section Spec.
 
   (* PARTIAL (no_panic_partial): accepted packets whose input i satisfies panic_guards never panic *)
   Theorem no_panic_partial v p i :
-    accepted p -> (i < length (vp_ins p))%nat ->
-    (forall inp, nth_error (vp_ins p) i = Some inp -> panic_guards v p i inp) ->
+    accepted p -> (i < length (svp_ins p))%nat ->
+    (forall inp, nth_error (svp_ins p) i = Some inp -> panic_guards v p i inp) ->
     forall site, VI v p i <> VPanic site.
   Proof.
     intros [Hlen Hsig] Hi Hg site. unfold vs_validate_input.
-    destruct (nth_error (vp_ins p) i) as [inp|] eqn:En.
-    - destruct (vi_sigs inp) as [|s0 r] eqn:Es; [discriminate|]. rewrite <- Es.
+    destruct (nth_error (svp_ins p) i) as [inp|] eqn:En.
+    - destruct (svi_sigs inp) as [|s0 r] eqn:Es; [discriminate|]. rewrite <- Es.
       apply validate_sigs_no_panic. intros s Hin.
       apply validate_sig_no_panic; [lia | apply Hg; reflexivity |].
       apply (Hsig inp); [eapply nth_error_In; exact En | exact Hin].
@@ -586,3 +586,221 @@ Section Spec.
   Qed.
 End Spec.
 
+
+(* ---------- a toy instantiation: hypotheses are satisfiable, refutation witnesses ---------- *)
+Definition toy_digest (a : valgo) (t : tx) (i : nat) (code amount : bytes) (ht : N) : bytes :=
+  (match a with VLegacy => x00 | VSegwitV0 => x01 end) :: code ++ amount ++ [b8 ht].
+Definition toy_parse_pk (pub : bytes) : option bytes := Some pub.
+Definition toy_der_ok (_ : bytes) : bool := true.
+(* a "signature" by key k on message m is k ++ m *)
+Definition toy_verify (k m s : bytes) : bool := bytes_eqb s (k ++ m).
+Definition toy_signed (k m s : bytes) : Prop := s = k ++ m.
+Definition toy_hash160 (b : bytes) : bytes := b.
+
+Notation TVI := (vs_validate_input toy_digest toy_parse_pk toy_der_ok toy_verify toy_hash160).
+
+Example toy_ideal_sig : forall k m s, toy_verify k m s = true -> toy_signed k m s.
+Proof. intros k m s H. apply bytes_eqb_eq in H. exact H. Qed.
+
+Definition toy_sig (k : bytes) (d : bytes) (ht : N) : bytes := k ++ d ++ [b8 ht].
+
+Definition out_of (script value : bytes) : txout := mk_out [] value script [] [] [].
+Definition tx_of (ins : list txin) (outs : list txout) : tx := mk_tx 2 0 0 ins outs.
+Definition in_of (h : bytes) (idx : N) : txin := mk_in h idx 0xffffffff [] [] false [] None [] [].
+
+Definition kA : bytes := [x02].                                (* toy key; its toy HASH160 is itself *)
+Definition scrA : bytes := [x76; x01; x02].                    (* OP_DUP <02> : mentions kA *)
+Definition scrB : bytes := [x76; x01; x03].                    (* somebody else's script *)
+Definition kW : bytes := repeat x11 20.                         (* toy key whose HASH160 is a 20-byte program *)
+Definition spkW : bytes := [x00; x14] ++ kW.                    (* P2WPKH-shaped *)
+
+(* 1. v0: a previous transaction whose id is not the outpoint txid (it compares above it) *)
+Definition prevA : tx := Eval vm_compute in tx_of [in_of [] 0] [out_of scrA [x01]].
+Definition pkt1 : vpacket := Eval vm_compute in
+  mk_vpacket (tx_of [in_of [] 0] [out_of [] [x01]])
+    [mk_vinput (Some prevA) None None None
+       [Some (mk_vsig (Some kA) (toy_sig kA (toy_digest VLegacy (tx_of [] []) 0 scrA [] 1) 1))] [] 0].
+
+Theorem valid_only_if_refuted_prev_tx_v0 :
+  TVI VsV0 pkt1 0 = VOk true /\
+  forall inp, nth_error (svp_ins pkt1) 0 = Some inp -> ~ prev_tx_matches VsV0 pkt1 0 inp.
+Proof.
+  split; [vm_compute; reflexivity|].
+  intros inp Hn H. vm_compute in Hn. injection Hn as <-.
+  destruct (H prevA eq_refl) as (h & idx & Ho & Ht). vm_compute in Ho. injection Ho as <- <-.
+  vm_compute in Ht. discriminate.
+Qed.
+
+(* 2. both utxo records present, amounts disagree: the signature covers the witness-utxo
+      amount, not the amount of the output the outpoint designates (v2; same code in v0) *)
+Definition prevW : tx := Eval vm_compute in tx_of [in_of [] 0] [out_of spkW [x01; x05]].
+Definition idW : bytes := Eval vm_compute in txid prevW.
+Lemma idW_ok : txid prevW = idW.
+Proof. vm_compute. reflexivity. Qed.
+Definition pkt2 : vpacket := Eval vm_compute in
+  mk_vpacket (tx_of [in_of idW 0] [out_of [] [x01]])
+    [mk_vinput (Some prevW) (Some (out_of spkW [x01; x09])) None None
+       [Some (mk_vsig (Some kW) (toy_sig kW (toy_digest VSegwitV0 (tx_of [] []) 0 (vs_p2pkh_code kW) [x01; x09] 1) 1))]
+       idW 0].
+
+Ltac refute_sig_genuine :=
+  let H := fresh "H" in
+  intros (pub & sg & ck & last & rder & d & sat & asm & E1 & E2 & E3 & E4 & E5 & E6 & E7);
+  injection E1 as <- <-; vm_compute in E2; injection E2 as <-;
+  vm_compute in E3; injection E3 as <- <-;
+  vm_compute in E4; try discriminate E4; injection E4 as <- <-;
+  vm_compute in E6; discriminate E6.
+
+Theorem valid_only_if_refuted_amount :
+  TVI VsV2 pkt2 0 = VOk true /\
+  exists inp s, nth_error (svp_ins pkt2) 0 = Some inp /\ In s (svi_sigs inp) /\
+    prev_tx_matches VsV2 pkt2 0 inp /\
+    ~ sig_genuine toy_digest toy_parse_pk toy_der_ok toy_verify toy_hash160 VsV2 pkt2 0 inp s.
+Proof.
+  split; [vm_compute; reflexivity|].
+  eexists; eexists. split; [reflexivity|]. split; [left; reflexivity|]. split.
+  - intros prev Hp. vm_compute in Hp. injection Hp as <-. eexists; eexists. split; [vm_compute; reflexivity | vm_compute; reflexivity].
+  - refute_sig_genuine.
+Qed.
+
+(* 3. a redeem script that the spent script does not commit to (the spent script is not even P2SH) *)
+Definition prevB : tx := Eval vm_compute in tx_of [in_of [] 0] [out_of scrB [x01]].
+Definition idB : bytes := Eval vm_compute in txid prevB.
+Lemma idB_ok : txid prevB = idB.
+Proof. vm_compute. reflexivity. Qed.
+Definition pkt3 : vpacket := Eval vm_compute in
+  mk_vpacket (tx_of [in_of idB 0] [out_of [] [x01]])
+    [mk_vinput (Some prevB) None (Some scrA) None
+       [Some (mk_vsig (Some kA) (toy_sig kA (toy_digest VLegacy (tx_of [] []) 0 scrA [] 1) 1))]
+       idB 0].
+
+Theorem valid_only_if_refuted_redeem_script :
+  TVI VsV2 pkt3 0 = VOk true /\
+  exists inp s, nth_error (svp_ins pkt3) 0 = Some inp /\ In s (svi_sigs inp) /\
+    prev_tx_matches VsV2 pkt3 0 inp /\
+    ~ sig_genuine toy_digest toy_parse_pk toy_der_ok toy_verify toy_hash160 VsV2 pkt3 0 inp s.
+Proof.
+  split; [vm_compute; reflexivity|].
+  eexists; eexists. split; [reflexivity|]. split; [left; reflexivity|]. split.
+  - intros prev Hp. vm_compute in Hp. injection Hp as <-. eexists; eexists. split; [vm_compute; reflexivity | vm_compute; reflexivity].
+  - refute_sig_genuine.
+Qed.
+
+(* 4. a witness script that is not the pre-image of the P2WSH program *)
+Definition wsA : bytes := [x51; x01; x02].                     (* OP_1 <02> *)
+Definition pkt4 : vpacket := Eval vm_compute in
+  mk_vpacket (tx_of [in_of (repeat x07 32) 0] [out_of [] [x01]])
+    [mk_vinput None (Some (out_of ([x00; x20] ++ repeat x00 32) [x01; x05])) None (Some wsA)
+       [Some (mk_vsig (Some kA) (toy_sig kA (toy_digest VSegwitV0 (tx_of [] []) 0 wsA [x01; x05] 1) 1))]
+       (repeat x07 32) 0].
+
+Theorem valid_only_if_refuted_witness_script :
+  TVI VsV0 pkt4 0 = VOk true /\ TVI VsV2 pkt4 0 = VOk true /\
+  exists inp s, nth_error (svp_ins pkt4) 0 = Some inp /\ In s (svi_sigs inp) /\
+    ~ sig_genuine toy_digest toy_parse_pk toy_der_ok toy_verify toy_hash160 VsV2 pkt4 0 inp s.
+Proof.
+  split; [vm_compute; reflexivity|]. split; [vm_compute; reflexivity|].
+  eexists; eexists. split; [reflexivity|]. split; [left; reflexivity|].
+  refute_sig_genuine.
+Qed.
+
+Theorem valid_only_if_refuted :
+  ~ valid_only_if_statement toy_digest toy_parse_pk toy_der_ok toy_verify toy_hash160.
+Proof.
+  intro H. destruct (H VsV0 pkt1 0%nat (proj1 valid_only_if_refuted_prev_tx_v0)) as (inp & Hn & _ & _ & Hp).
+  exact (proj2 valid_only_if_refuted_prev_tx_v0 inp Hn Hp).
+Qed.
+
+(* 5. the key test is a substring test on the hex disassembly: a match at an odd hex offset
+      is accepted although the key bytes occur nowhere in the script *)
+Theorem key_hex_match_not_bytewise :
+  exists script asm ck, vs_disasm script = Some asm /\
+    vs_is_infix (to_hex ck) asm = true /\ vs_is_infix ck script = false.
+Proof. exists [x02; x10; x12], (to_hex [x10; x12]), [x01]. vm_compute. repeat split. Qed.
+
+(* the hypotheses of valid_only_if_consistent are satisfiable: an honest P2WPKH input with
+   both utxo records, valid and consistent *)
+Definition pkt0 : vpacket := Eval vm_compute in
+  mk_vpacket (tx_of [in_of idW 0] [out_of [] [x01]])
+    [mk_vinput (Some prevW) (Some (out_of spkW [x01; x05])) None None
+       [Some (mk_vsig (Some kW) (toy_sig kW (toy_digest VSegwitV0 (tx_of [] []) 0 (vs_p2pkh_code kW) [x01; x05] 1) 1))]
+       idW 0].
+
+Example consistent_valid_packet :
+  TVI VsV2 pkt0 0 = VOk true /\
+  exists inp, nth_error (svp_ins pkt0) 0 = Some inp /\ consistent toy_hash160 VsV2 pkt0 0 inp.
+Proof.
+  split; [vm_compute; reflexivity|]. eexists. split; [reflexivity|].
+  split.
+  - intros prev Hp. vm_compute in Hp. injection Hp as <-. eexists; eexists. split; [vm_compute; reflexivity | vm_compute; reflexivity].
+  - exists (out_of spkW [x01; x05]). split; [vm_compute; reflexivity|]. split.
+    + intros w _ Hw. vm_compute in Hw. injection Hw as <-. reflexivity.
+    + split; [vm_compute; reflexivity|]. split.
+      * intros _. left. vm_compute. discriminate.
+      * intros prog Hp. vm_compute in Hp. discriminate.
+Qed.
+
+(* the hypotheses of corruption_rejected are satisfiable (toy signatures are produced for one message) *)
+Example toy_signed_only : forall k m m' s, toy_signed k m s -> toy_signed k m' s -> m = m'.
+Proof. unfold toy_signed. intros k m m' s -> H. apply app_inv_head in H. exact H. Qed.
+
+(* ---------- panics on accepted packets ---------- *)
+(* the outpoint index is not within the supplied previous transaction *)
+Definition pkt5 : vpacket := Eval vm_compute in
+  mk_vpacket (tx_of [in_of idB 1] [])
+    [mk_vinput (Some prevB) None None None [Some (mk_vsig (Some kA) [x01])] idB 1].
+(* a P2WPKH output described by the previous transaction only *)
+Definition pkt6 : vpacket := Eval vm_compute in
+  mk_vpacket (tx_of [in_of idW 0] [])
+    [mk_vinput (Some prevW) None None None [Some (mk_vsig (Some kW) [x01])] idW 0].
+(* an empty script / the one-byte script OP_0 in the witness-utxo record *)
+Definition pkt7 (s : bytes) : vpacket :=
+  mk_vpacket (tx_of [in_of [] 0] [])
+    [mk_vinput None (Some (out_of s [x01])) None None [Some (mk_vsig (Some kA) [x01])] [] 0].
+
+Lemma toy_accepted_single t inp pub sg :
+  svi_sigs inp = [Some (mk_vsig (Some pub) sg)] -> sg <> [] -> length (t_ins t) = 1%nat ->
+  accepted toy_parse_pk (mk_vpacket t [inp]).
+Proof.
+  intros Hs Hsg Hl. split; [exact Hl|]. intros inp' [<-|[]] s Hin. rewrite Hs in Hin.
+  destruct Hin as [<-|[]]. exists pub, sg. repeat split; [discriminate | exact Hsg].
+Qed.
+
+Theorem no_panic_refuted :
+  (accepted toy_parse_pk pkt5 /\ TVI VsV0 pkt5 0 = VPanic VPPrevOutIndex /\ TVI VsV2 pkt5 0 = VPanic VPPrevOutIndex) /\
+  (accepted toy_parse_pk pkt6 /\ TVI VsV0 pkt6 0 = VPanic VPWitUtxoNil /\ TVI VsV2 pkt6 0 = VPanic VPWitUtxoNil) /\
+  (accepted toy_parse_pk (pkt7 []) /\ TVI VsV0 (pkt7 []) 0 = VPanic VPScriptEmpty /\ TVI VsV2 (pkt7 []) 0 = VPanic VPScriptEmpty) /\
+  (accepted toy_parse_pk (pkt7 [x00]) /\ TVI VsV0 (pkt7 [x00]) 0 = VPanic VPScriptShort /\ TVI VsV2 (pkt7 [x00]) 0 = VPanic VPScriptShort).
+Proof.
+  repeat split; try (vm_compute; reflexivity);
+    (eapply toy_accepted_single; [reflexivity | discriminate | reflexivity]).
+Qed.
+
+Theorem no_panic_statement_refuted :
+  ~ no_panic_statement toy_digest toy_parse_pk toy_der_ok toy_verify toy_hash160.
+Proof.
+  intro H. destruct no_panic_refuted as [[Ha [Hp _]] _].
+  apply (H VsV0 pkt5 0%nat Ha) with (site := VPPrevOutIndex); [vm_compute; lia | exact Hp].
+Qed.
+
+(* outside the parsers' guarantees: an empty signature, a nil signature element, an index
+   past the inputs (hand-built packets only) *)
+Example panic_on_unparsed :
+  TVI VsV2 (mk_vpacket (tx_of [in_of [] 0] []) [mk_vinput None None None None [Some (mk_vsig (Some kA) [])] [] 0]) 0
+    = VPanic VPSigEmpty /\
+  TVI VsV0 (mk_vpacket (tx_of [in_of [] 0] []) [mk_vinput None None None None [None] [] 0]) 0 = VPanic VPSigNil /\
+  TVI VsV0 (mk_vpacket (tx_of [] []) []) 0 = VPanic VPInputIndex.
+Proof. vm_compute. repeat split. Qed.
+
+(* the guards of no_panic_partial are satisfiable *)
+Example no_panic_guards_hold :
+  accepted toy_parse_pk pkt0 /\ forall inp, nth_error (svp_ins pkt0) 0 = Some inp -> panic_guards VsV2 pkt0 0 inp.
+Proof.
+  split.
+  - eapply toy_accepted_single; [reflexivity | vm_compute; discriminate | reflexivity].
+  - intros inp Hn. vm_compute in Hn. injection Hn as <-. unfold panic_guards. simpl svi_nonwit.
+    intros h idx Ho. vm_compute in Ho. injection Ho as <- <-.
+    exists (out_of spkW [x01; x05]). split; [vm_compute; reflexivity|]. split; [reflexivity|]. split.
+    + split; [vm_compute; discriminate|]. intros a Ha. vm_compute in Ha. discriminate.
+    + intros _. discriminate.
+Qed.
